@@ -232,6 +232,22 @@ def run(tier):
     reps = 1 if q else 6
     histories = []
     solo_needed = {}
+
+    def relayout(s):
+        """Same bytes count, other line layout: the first line break and a later blank trade places."""
+        i = s.find("\n")
+        j = s.find(" ", i + 1) if i >= 0 else -1
+        if i < 0 or j < 0:
+            return None
+        return s[:i] + " " + s[i + 1:j] + "\n" + s[j + 1:]
+    # hidden state keyed by the script's address / length would show here: P, its same-length re-layout, P again
+    for c in ("static_error", "parse_error", "runtime_error", "ok"):
+        for s in by[c][:6 if q else 40]:
+            t = relayout(s)
+            if t and len(t.encode()) == len(s.encode()) and t != s:
+                histories.append([s, t, s, t])
+                solo_needed[s] = None
+                solo_needed[t] = None
     for rep in range(reps):
         for sq in seqs:
             progs = [rnd.choice(by[c]) for c in sq]
@@ -244,8 +260,12 @@ def run(tier):
     for s, e in zip(list(solo_needed), solo):
         solo_needed[s] = e
 
+    so_name = langcheck.info()["runtime"]["Stack overflow"]
+
     def view(r):
-        return (r.get("st"), tuple(nsast.impl_value(x) for x in r.get("out", [])), tuple(sorted((d["sev"], d["msg"]) for d in r.get("diags", []))))
+        # the rendered text too (locations, excerpts), except where the stack budget ran out (build / call-depth dependent)
+        text = r.get("stdout") if r.get("st") != so_name else None
+        return (r.get("st"), tuple(nsast.impl_value(x) for x in r.get("out", [])), tuple(sorted((d["sev"], d["msg"]) for d in r.get("diags", []))), text)
     traces = []
     seq_runs = 0
     agree_seq = 0
@@ -258,7 +278,7 @@ def run(tier):
         evs_all = []
         broken = False
         for s in progs:
-            w.send({"id": hi, "src": s, "modes": ["cli"], "ev": 16})
+            w.send({"id": hi, "src": s, "modes": ["cli"], "ev": 16, "reuse": True})
             ans = None
             while True:
                 a = w.readline(60)
